@@ -18,6 +18,7 @@ func init() {
 			"FE-BOOL distinct: a record lacking a listed label is kept, a repeated value drops it, unseen values are remembered, the line is unchanged; LP-ERRPATH: unpack / line_format return the input line when they fail; LP-OFFLOAD provenance: only the selector's own matchers travel as selector matchers; PV-WHOLE: no index loop deletes from the slice it walks while advancing",
 			"CH-MAP GetFloat: integer and double labels convert without error; PV-FRESH: every JSON document is walked from an empty path stack",
 			"ERR-LOOP extractor scan loops run to the end of the line; PV-API Docker labels are stored under KeyToLabel(key) (what an offloaded matcher looks up)",
+			"PV-PURE LabelSet read accessors do not write the label map",
 		},
 		NotDecided: []string{"library semantics of strings.Contains / regexp / netip", "that the storage evaluates offloaded filters correctly (the engine re-checks them, so only completeness of the storage matters: C02)"},
 		Technique:  "SSA summary/typestate analysis of the Processor implementers (line/keep contract), enum-table chain extraction over feasible paths from parser tokens to built matchers, finite-case truth tables, dominance and path rules on the offload scan and the per-record pipeline",
@@ -50,6 +51,7 @@ func init() {
 			ruleJSONPathStateFresh(r)
 			ruleExtractorErrors(r) // the labels a later filter reads: an extractor visits the whole line
 			ruleSanitiserSites(r)  // an offloaded matcher addresses a Docker label under its sanitised name
+			ruleLabelSetReadersPure(r)
 		},
 	})
 }
